@@ -113,13 +113,18 @@ Theorem C12_typep_classof_dispatch_agree : forall w i, Inv w -> CacheInv w -> cu
 Proof. exact typep_classof_dispatch_agree. Qed.
 Print Assumptions C12_typep_classof_dispatch_agree.
 
-(* (11) outside the guard the faithful model violates S: the known findings *)
-Theorem C12_dispatch_cache_stale_refuted :
-  guard_ops w0 w_cache_prefix = true /\ guard_ops w0 w_cache = false /\
-  prec_of (run w0 w_cache) 1 = [1; 3; SO; TT] /\ spec_prec (run w0 w_cache) 1 = [1; 3; SO; TT] /\
-  skipn 9 (run_obs w0 w_cache) = [ONames [0]; OB false].
-Proof. exact dispatch_cache_stale_refuted. Qed.
-Print Assumptions C12_dispatch_cache_stale_refuted.
+(* (11) outside the guard the faithful model violates S: the known findings.  The first one is what is left of
+   the dispatch-cache defect after repo_fixes/C12-4: the cache is keyed by the class NAME, so a call with an instance
+   made before a redefinition (its class object is no longer the registered one: outside the guard) caches the old
+   methods under the name, and the next call with a new instance uses them. *)
+Theorem C12_dispatch_cache_class_name_refuted :
+  guard_ops w0 w_key_prefix = true /\ guard_ops w0 w_key = false /\
+  guard_ops w0 (w_key_prefix ++ [other (ODispatch 1)]) = true /\
+  last (run_obs w0 (w_key_prefix ++ [other (ODispatch 1)])) OErr = ONames [3] /\
+  prec_of (run w0 w_key) 1 = [1; 3; SO; TT] /\ spec_prec (run w0 w_key) 1 = [1; 3; SO; TT] /\
+  skipn 8 (run_obs w0 w_key) = [ONames [0]; ONames [0]; OB false].
+Proof. exact dispatch_cache_class_name_refuted. Qed.
+Print Assumptions C12_dispatch_cache_class_name_refuted.
 Theorem C12_shared_initarg_refuted :
   guard_ops w0 w_shared_prefix = true /\ guard_ops w0 w_shared = false /\
   last (run_obs w0 w_shared) OErr = OInst [SUnbound; SVal 5; SMissing; SMissing] /\
@@ -172,6 +177,26 @@ Theorem C12_original_redefinition_forward_reference_refuted :
   spec_prec pre 1 = [] /\ prec_of (class_changed pre 0 [1]) 1 = [].
 Proof. exact original_redefinition_forward_reference_refuted. Qed.
 Print Assumptions C12_original_redefinition_forward_reference_refuted.
+
+(* (11c) repaired (repo_fixes/C12-4): defclass drops the dispatch caches.  b under a, methods for a and z, a call
+   caches "b -> a's method", b is redefined under z: the history is inside the guard and a new instance of b gets
+   z's method.  The second theorem keeps the record of the unchanged code (same defclass without ClearCaches: a's
+   method, although typep denies the instance is an a). *)
+Theorem C12_dispatch_cache_cleared_example :
+  guard_ops w0 w_cache = true /\
+  prec_of (run w0 w_cache) 1 = [1; 3; SO; TT] /\ spec_prec (run w0 w_cache) 1 = [1; 3; SO; TT] /\
+  skipn 6 (run_obs w0 w_cache_prefix) = [ONames [0]] /\
+  skipn 9 (run_obs w0 w_cache) = [ONames [3]; OB false].
+Proof. exact dispatch_cache_cleared_example. Qed.
+Print Assumptions C12_dispatch_cache_cleared_example.
+Theorem C12_original_dispatch_cache_stale_refuted :
+  let w := run w0 w_cache_prefix in
+  let w1 := fst (step (defclass_merged w 1 [3] [] [0; 1; 3] []) (OMake 1 []) [] []) in
+  let w2 := fst (step (defclass w 1 [3] [] [0; 1; 3] []) (OMake 1 []) [] []) in
+  snd (step w1 (ODispatch 1) [] []) = ONames [0] /\ snd (step w1 (OTypep 1 0) [] []) = OB false /\
+  snd (step w2 (ODispatch 1) [] []) = ONames [3].
+Proof. exact original_dispatch_cache_stale_refuted. Qed.
+Print Assumptions C12_original_dispatch_cache_stale_refuted.
 
 (* (12) the hypotheses are satisfiable: a guarded history with forward references, a diamond, shadowed
    slots, initforms at two levels, a nil initform, a redefinition below which a class inherits, accessors and
